@@ -215,6 +215,7 @@ class ForcePlatformsDataBlock(Block):
         if channel is None:
             # (the map is stored as unsigned 16 bit integers)
             channel = u16.free_channel(self._plat_map)
+        u16.check_channel(channel)
         if channel in self._plat_map:
             raise ValueError(f"Channel {channel} already in use")
         self._plat_map.append(channel)
